@@ -243,6 +243,17 @@ fn ex_custom_default_name(_w: &mut ZA, c: Cur) {
     rec("ex_custom_default_name", format!("{:?}", c.0));
 }
 
+// the same custom parameter twice in a row, then a different one (names and types stay paired)
+#[given(expr = "swap {cur} for {cur} at {qty}")]
+fn ex_repeated_custom(_w: &mut ZA, a: Cur, b: Cur, q: Qty) {
+    rec("ex_repeated_custom", format!("{:?},{:?},{q:?}", a.0, b.0));
+}
+
+#[when(expr = "{qty} then {qty} in {cur} or {cur}")]
+fn ex_repeated_custom_twice(_w: &mut ZA, a: Qty, b: Qty, c: Cur, d: Cur) {
+    rec("ex_repeated_custom_twice", format!("{a:?},{b:?},{:?},{:?}", c.0, d.0));
+}
+
 #[then(expr = "{int} and {int} and {word}")]
 fn ex_order(_w: &mut ZA, a: i32, b: i32, c: String) {
     rec("ex_order", format!("{a:?},{b:?},{c:?}"));
@@ -390,6 +401,15 @@ fn defs() -> Vec<Def> {
             let s = first_nonempty(&[&g[0], &g[1]]);
             match s { "few" | "many" => Ok(format!("Vague({s:?})")), n => n.parse::<u32>().map(|n| format!("Exact({n})")).map_err(|_| "can not be parsed".into()) }
         } },
+        Def { world: 'A', kw: Given, id: "ex_repeated_custom", how: Expr("swap {cur} for {cur} at {qty}", r"^swap ([A-Z]{3}) for ([A-Z]{3}) at (?:(\d+) pcs|(few|many))$"), expect: |g, _| {
+            let s = first_nonempty(&[&g[2], &g[3]]);
+            let q = match s { "few" | "many" => Ok(format!("Vague({s:?})")), n => n.parse::<u32>().map(|n| format!("Exact({n})")).map_err(|_| String::from("can not be parsed")) }?;
+            Ok(format!("{:?},{:?},{q}", g[0], g[1]))
+        } },
+        Def { world: 'A', kw: When, id: "ex_repeated_custom_twice", how: Expr("{qty} then {qty} in {cur} or {cur}", r"^(?:(\d+) pcs|(few|many)) then (?:(\d+) pcs|(few|many)) in ([A-Z]{3}) or ([A-Z]{3})$"), expect: |g, _| {
+            let q = |s: &str| match s { "few" | "many" => Ok(format!("Vague({s:?})")), n => n.parse::<u32>().map(|n| format!("Exact({n})")).map_err(|_| String::from("can not be parsed")) };
+            Ok(format!("{},{},{:?},{:?}", q(first_nonempty(&[&g[0], &g[1]]))?, q(first_nonempty(&[&g[2], &g[3]]))?, g[4], g[5]))
+        } },
         Def { world: 'A', kw: When, id: "ex_custom_default_name", how: Expr("pay in {cur}", r"^pay in ([A-Z]{3})$"), expect: |g, _| Ok(format!("{:?}", g[0])) },
         Def { world: 'A', kw: Then, id: "ex_order", how: Expr("{int} and {int} and {word}", r"^((?:-?\d+)|(?:\d+)) and ((?:-?\d+)|(?:\d+)) and ([^\s]+)$"), expect: |g, _| match (g[0].parse::<i32>(), g[1].parse::<i32>()) { (Ok(a), Ok(b)) => Ok(format!("{a:?},{b:?},{:?}", g[2])), _ => Err("can not be parsed".into()) } },
         Def { world: 'A', kw: Then, id: "ex_slice", how: Expr("all of {word} {word} {word}", r"^all of ([^\s]+) ([^\s]+) ([^\s]+)$"), expect: |g, _| Ok(format!("{g:?}")) },
@@ -444,6 +464,8 @@ const CORPUS: &[&str] = &[
     "say \"hi there\"", "say 'single'", "say \"\"", "say hi", "say \"unterminated", "say \"a\\\"b\"",
     "pick red", "pick green", "pick blue", "pick yellow", "pick red/green/blue", "pick ",
     "order 5 pcs now", "order few now", "order many now", "order some now", "order 5 now", "order 99999999999 pcs now",
+    "swap USD for EUR at 5 pcs", "swap USD for EUR at few", "swap USD for EUR at GBP", "swap USD for 5 pcs at few", "swap usd for EUR at few",
+    "5 pcs then many in USD or EUR", "few then 7 pcs in USD or many", "few then USD in USD or EUR",
     "pay in USD", "pay in usd", "pay in EURO", "1 and 2 and x", "-1 and 22 and yy", "1 and x and 2", "all of a b c", "all of a b",
     "foo is 5", "foo is -5", "foo is bar", "anything goes here", "anything ", "anything", "escaped {brace} and (paren)", "escaped brace and paren", "escaped \\{brace} and \\(paren)",
     // multi-group parameters followed by more arguments
